@@ -237,8 +237,30 @@ class Monitor:
 
 def check_action_wellformed(ctx, a, kind):
     """C18(a): only meaningful on concrete values (twin run)."""
+    import sys
+    from checkpoint_schedules import schedule as S
     from checkpoint_schedules.schedule import StorageType
-    req = ctx.require
+
+    def req(cond, tag, info=None):
+        # soft: the twin run must go on so that its trace stays comparable
+        ctx.require(cond, tag, info or (lambda: {"action": repr(a)}), soft=True)
+    try:
+        _wellformed(ctx, a, kind, req, S, StorageType, sys)
+    except Exception as e:                                  # noqa: BLE001
+        req(False, "C18.integral", lambda: {"action": repr(a), "exc": repr(e)})
+
+
+def _wellformed(ctx, a, kind, req, S, StorageType, sys):
+    # repr() of an emitted action evaluates back to an equal action
+    try:
+        ns = {k: getattr(S, k) for k in ("Forward", "Reverse", "Copy", "Move", "EndForward",
+                                          "EndReverse", "StorageType")}
+        ns["sys"] = sys
+        back = eval(repr(a), ns)                            # noqa: S307
+        ok = type(back) is type(a) and tuple(back.args) == tuple(a.args)
+    except Exception as e:                                  # noqa: BLE001
+        ok = False
+    req(ok, "C18.repr_roundtrip", lambda: {"repr": repr(a)})
     if kind == "Forward":
         n0, n1, wi, wa, st = a.args
         req(isinstance(n0, numbers.Integral) and not isinstance(n0, bool)
